@@ -188,11 +188,16 @@ def judge(sc, meaning, data, closed, methods):
         if not rs: return "no response at all to a request whose backend answered completely"
         st, h, b, frame, keep = rs[0]
         if st != status: return "backend said status %d, client got %d" % (status, st)
-        if methods[0] != b"HEAD" and b != body:
+        if sc.get("brk") and st >= 400 and b.startswith(b"<!DOCTYPE html>") and (b"<title>%d " % st) in b and body != b:
+            # the stream broke (no END_REQUEST / EOF) after an error status had been announced: lighttpd reports that status with its own
+            # error page instead of relaying a body it cannot vouch for - an error report, not a relayed response
+            pass
+        elif methods[0] != b"HEAD" and b != body:
             k = next((j for j in range(min(len(b), len(body))) if b[j] != body[j]), min(len(b), len(body)))
             return "body differs: backend produced %d bytes, client got %d (first difference at %d)" % (len(body), len(b), k)
+        own_page = bool(sc.get("brk")) and st >= 400 and b.startswith(b"<!DOCTYPE html>") and (b"<title>%d " % st) in b and body != b
         for k, v in hs:
-            if k.lower() in HOP: continue
+            if k.lower() in HOP or own_page: continue
             if v not in h.get(k.lower(), []): return "end-to-end header %r: %r sent by the backend is missing or altered (client has %r)" % (k, v, h.get(k.lower()))
         for k in h:
             if k.startswith(b"x-") and k not in [a.lower() for a, _ in hs]: return "client received header %r the backend never sent" % k
